@@ -127,9 +127,10 @@ func frozenContainer(rv reflect.Value) reflect.Value {
 		case reflect.Map, reflect.Slice, reflect.Ptr:
 			return rv.Elem()
 		case reflect.Struct:
-			// a struct value held by the slot: the one read now (its fields cannot be
-			// stored through the slot anyway)
-			return detachValue(rv)
+			// a struct value held by the slot: the one read now. Its fields cannot be stored
+			// through the slot, at any depth: it stays unaddressable, so that a store into a
+			// field of a field is refused like a store into a field (not made to a copy and lost)
+			return rv.Elem()
 		}
 	}
 	return rv
